@@ -132,6 +132,27 @@ def check(case):
     r1 = must(lib(dist.regress, y, Sarg), "regress")
     m1 = must(lib(dist.mse, y, Sarg), "mse")
     coefs1 = judge(r1, m1, "regress/mse(%d, %s)" % (y, Sl))
+    # the caller keeps one index buffer, overwrites an entry and asks again with the same array object
+    T = [t for t in case.get("T", []) if t not in Sl]
+    if T and isinstance(Sarg, np.ndarray) and len(Sarg) >= 1:
+        S3 = list(Sl)
+        S3[0] = T[0]
+        b3, c3, mse3, norms3 = exact_regression(mean, cov, y, S3)
+        if norms3["ks"] <= KAPPA_MAX:
+            tc3, ti3, tm3 = _tols(mean, cov, y, S3, b3, norms3)
+            Sarg[0] = T[0]
+            r5 = must(lib(dist.regress, y, Sarg), "regress (index buffer edited in place)")
+            m5 = must(lib(dist.mse, y, Sarg), "mse (index buffer edited in place)")
+            co5 = np.asarray(r5[0], dtype=float)
+            what = "regress/mse(%d, S) after the caller changed its index array in place from %s to %s" % (y, Sl, S3)
+            if co5.shape != (p,) or any(co5[i] != 0 for i in range(p) if i not in S3):
+                raise Violation("coef_outside_S", "%s: coefficients %s; %s" % (what, co5.tolist(), ctx))
+            if not (np.abs(co5 - np.array(X.vto_float(b3))) <= tc3).all() or not abs(float(r5[1]) - float(c3)) <= ti3:
+                raise Violation("coef_wrong", "%s: coefficients %s intercept %r vs exact %s, %r; %s"
+                                % (what, co5.tolist(), float(r5[1]), X.vto_float(b3), float(c3), ctx))
+            if not abs(float(m5) - float(mse3)) <= tm3:
+                raise Violation("mse_wrong", "%s: mse %r vs exact %r; %s" % (what, float(m5), float(mse3), ctx))
+            lab.append("index_buffer_reused")
     # overwrite what was returned, then ask again (same object; S permuted): results must not depend on history
     try:
         np.asarray(r1[0])[...] = 12345.0
@@ -208,7 +229,8 @@ def _check_lganm(case):
         tol_int = tol_mean_law * (1 + b1) + tol_coef * float(sum(abs(m) for m in mean)) + 100 * EPS * p * float(abs(mean[i]) + sum(abs(w * m) for w, m in zip(want_b, mean))) + 1e-300
         quad = float(cov[i][i] + sum(abs(want_b[a]) * abs(cov[a][c]) * abs(want_b[c]) for a in pa for c in pa) + 2 * sum(abs(cov[i][a] * want_b[a]) for a in pa))
         tol_mse = 2 * tol_cov_law * (1 + b1) ** 2 + 100 * EPS * (p + 1) * quad + float(X.norm_inf(X.block(cov, pa, pa)) if pa else 0) * len(pa) ** 2 * tol_coef ** 2 + 1e-300
-        pres = [list, tuple, np.array][i % 3]
+        pres = [list, tuple, np.array, lambda v: np.array(v, dtype=np.int8), lambda v: np.array(v, dtype=np.uint8),
+                lambda v: np.array(v, dtype=np.int16), lambda v: np.array(v, dtype=np.uint64)][(i + p) % 7]
         coefs, intercept = must(lib(dist.regress, i, pres(pa) if pa else []), "regress(%d, parents %s)" % (i, pa))
         msev = must(lib(dist.mse, i, list(pa)), "mse(%d, parents)" % i)
         coefs = np.asarray(coefs, dtype=float)
@@ -225,6 +247,8 @@ def _check_lganm(case):
                             % (i, pa, float(msev), float(D[i]), tol_mse, ctx))
         if i in targets or any(a in targets for a in pa):
             lab.append("intervened_family")
+        if pa and max(pa) >= 12:
+            lab.append("parent_label_ge_12")
         if str(i) in case.get("do", {}):
             lab.append("do_target")
     if ratios:
@@ -239,12 +263,23 @@ def _nontrivial(case, labels):
 
 @st.composite
 def reg_case(draw):
-    p, B, mean = draw(c05._dist(1, 7) if draw(st.integers(0, 3)) == 0 else c05._dist(4, 7))
+    wide = draw(st.integers(0, 5)) == 0
+    if wide:                                  # 12..40 variables, regressors among the highest labels
+        p = draw(st.integers(12, 40))
+        r = draw(st.integers(1, 3))
+        B = [[draw(c05._q(8, 4)) for _ in range(r)] for _ in range(p)]
+        mean = [draw(c05._q(40, 8)) for _ in range(p)]
+    else:
+        p, B, mean = draw(c05._dist(1, 7) if draw(st.integers(0, 3)) == 0 else c05._dist(4, 7))
     den = draw(st.sampled_from([4, 4, 4, 4096]))
     d = [fstr(Fraction(draw(st.integers(1, 8)), den)) for _ in range(p)]
     y = draw(st.integers(0, p - 1))
-    ns = draw(st.sampled_from([0] + list(range(1, p + 1)) * 2))
-    Sl = list(draw(st.lists(st.integers(0, p - 1), min_size=ns, max_size=ns, unique=True)))
+    if wide:
+        ns = draw(st.integers(1, 4))
+        Sl = list(draw(st.lists(st.integers(p - 7, p - 1), min_size=ns, max_size=ns, unique=True)))
+    else:
+        ns = draw(st.sampled_from([0] + list(range(1, p + 1)) * 2))
+        Sl = list(draw(st.lists(st.integers(0, p - 1), min_size=ns, max_size=ns, unique=True)))
     if draw(st.integers(0, 3)) and y in Sl:
         Sl.remove(y)
     case = {"sub": "reg", "mean": mean, "B": B, "d": d, "y": y, "S": Sl,
@@ -268,6 +303,8 @@ def reg_case(draw):
 @st.composite
 def lganm_case(draw, p_max):
     W, cls = draw(S.weighted_dag(2, p_max, classes=("unit", "smallint", "dyadic", "cancelling", "positive")))
+    if draw(st.integers(0, 3)) == 0:
+        W = draw(S.embedded(W, 12, 26))          # the same family among 12..26 variables: parents carry high labels
     p = len(W)
     means = [fstr(Fraction(draw(st.integers(-24, 24)), 8)) for _ in range(p)]
     variances = [fstr(Fraction(draw(st.integers(1, 32)), 8)) for _ in range(p)]
